@@ -106,6 +106,10 @@ class LifeSystem:
         from deepproto.proto.poll.v1.poll_pb2 import PollResponse, ResponseType
         from deepproto.proto.tracepoint.v1.tracepoint_pb2 import TracePointConfig
         self.polls += 1
+        hang = getattr(self, 'poll_hang', None)
+        if hang is not None:
+            self.poll_hanging = True
+            hang.wait(60)           # the service does not answer (the connection hangs)
         if self.poll_fail:
             raise fakes.FakeRpcError('unavailable')
         cur = getattr(self, 'late_hash', 'h1')      # (see start(): a new configuration with every second life)
